@@ -55,8 +55,13 @@ def generate(seed, tier):
     sc['ops'].sort(key=lambda x: x['t'])
     if r.random() < 0.25:
         # Byzantine peer batch: replies a conforming peer may send but this implementation never does, and defective replies
-        sc['byz'] = {'kind': r.choice(['bad_reply', 'bad_reply', 'auth_malformed', 'reuse_spi_request']), 'seed': r.randrange(2 ** 31)}
+        sc['byz'] = {'kind': r.choice(['bad_reply', 'bad_reply', 'auth_malformed', 'reuse_spi_request', 'delete_child_on_rekeyed', 'delete_child_on_rekeyed']),
+                     'seed': r.randrange(2 ** 31)}
         sc['meta']['byz'] = sc['byz']['kind']
+        if sc['byz']['kind'] == 'delete_child_on_rekeyed':
+            for nd in sc['nodes'].values():
+                for c in nd['conf'].values():
+                    c['lifetime'] = r.choice([6, 8, 12])          # IKE_SA rekeys are what this peer waits for
     if tier == 'thorough' and seed % 10 == 0:
         sc['enumerate_kerr'] = 12
     return sc
